@@ -20,7 +20,9 @@ ls $HERE/harness/drv_*.c | xargs -P 16 -I{} sh -c "$CC $FL -w -DMPIR_VERIF -I$LI
 $CC $FL -w -DMPIR_VERIF -I$LIB -I$HERE/harness -c $HERE/harness/main.c -o $B/hx_main.o
 $CC $FL -w -DMPIR_VERIF -I$LIB -I$HERE/harness -c $HERE/harness/rec.c -o $B/hx_rec.o
 $CC $FL -w -DMPIR_VERIF -I$LIB -I$HERE/harness -c $HERE/harness/gen/api_glue.c -o $B/hx_api_glue.o
-$CC $FL -no-pie -Wl,-Map=$B/verif-hx.map -o $B/verif-hx $B/hx_main.o $B/hx_rec.o $B/hx_api_glue.o $(ls $HERE/harness/drv_*.c | sed "s#.*/drv_\(.*\)\.c#$B/hx_drv_\1.o#") $LIB/.libs/libmpir.a -lm -lpthread
+WRAP="-Wl,--wrap=malloc -Wl,--wrap=calloc -Wl,--wrap=realloc -Wl,--wrap=free"; [ -n "$HX_CFLAGS" ] && WRAP=""      # sanitizer builds keep their own interceptors
+$CC $FL -no-pie $WRAP -Wl,-Map=$B/verif-hx.map -o $B/verif-hx $B/hx_main.o $B/hx_rec.o $B/hx_api_glue.o $(ls $HERE/harness/drv_*.c | sed "s#.*/drv_\(.*\)\.c#$B/hx_drv_\1.o#") $LIB/.libs/libmpir.a -lm -lpthread
 python3 $HERE/lib/mapranges.py $B/verif-hx.map $B/verif-hx > $B/verif-hx.gw
+python3 $HERE/lib/mapranges.py $B/verif-hx.map $B/verif-hx text > $B/verif-hx.tx
 $CC -O0 -w -no-pie -DMPIR_VERIF -I$LIB -o $B/verif-probe $HERE/harness/probe.c $LIB/.libs/libmpir.a
 touch "$B/.built"; rm -rf "$OUT"; mv "$B" "$OUT"; echo "$OUT"
